@@ -9,7 +9,7 @@ import threading
 
 from simkit import corpus, mon, rng as rngm, spec, universe as U
 
-KINDS = ['preempt', 'user_abort', 'reenter', 'scramble', 'gc', 'name_reuse', 'ctor_fail', 'compile', 'postprocess', 'clock_jump']
+KINDS = ['preempt', 'user_abort', 'reenter', 'scramble', 'gc', 'name_reuse', 'ctor_fail', 'compile', 'postprocess', 'clock_jump', 'burst']
 
 
 # ------------------------------------------------------------------------------- generation
@@ -627,6 +627,12 @@ class Planner:
                 mid = hot if (hot in cands and wr.random() < 0.65) else wr.choice(cands)
                 ops.append(self.gen_parse(mid, kinds))
             clients.append(ops)
+        if 'burst' in kinds and wr.random() < 0.04:
+            # a long-lived module: one client first makes hundreds of ordinary calls on the hot module
+            hm = self.infos[hot]
+            if getattr(hm, 'owner', 0) == 0 and hm.texts and not getattr(hm, 'builtin', None):
+                ts = [hm.wire(t) for t in wr.sample(hm.texts, min(len(hm.texts), wr.choice([1, 1, 2])))]
+                clients[0].insert(0, {'op': 'burst', 'mod': hot, 'texts': ts, 'n': wr.choice([300, 1200, 2500])})
         if n_clients >= 2 and wr.random() < 0.3:
             # "the same request, twice, at the same time": the other clients start with the very operation
             # the first client starts with -- the call that is let into a window then runs through the
